@@ -981,6 +981,9 @@ func (u *Unit) havocModifies(st, pre *State, env map[string]Value, c *Clause) {
 			i := strings.LastIndex(tf, ".")
 			pref := "F:" + tf[:i] + ":" + tf[i+1:]
 			u.havocHeap(st, func(k string) bool { return k == pref || strings.HasPrefix(k, pref+".") || strings.HasPrefix(k, pref+"[") })
+		case strings.HasPrefix(item, "allmem(") && strings.HasSuffix(item, ")"):
+			pref := "M:" + item[7:len(item)-1] + ":"
+			u.havocHeap(st, func(k string) bool { return strings.HasPrefix(k, pref) })
 		case strings.HasPrefix(item, "maps(") && strings.HasSuffix(item, ")"):
 			mk := mapsKey(item)
 			u.havocHeap(st, func(k string) bool { return k == "MD:"+mk || strings.HasPrefix(k, "MV:"+mk+":") })
@@ -1162,6 +1165,8 @@ func (u *Unit) callMods(call *ast.CallExpr, m *modSet) {
 						tf := item[5 : len(item)-1]
 						i := strings.LastIndex(tf, ".")
 						m.keys = append(m.keys, "F:"+tf[:i]+":"+tf[i+1:])
+					case strings.HasPrefix(item, "allmem("):
+						m.keys = append(m.keys, "M:"+item[7:len(item)-1]+":")
 					case strings.HasPrefix(item, "maps("):
 						m.keys = append(m.keys, "MD:"+mapsKey(item), "MV:"+mapsKey(item)+":")
 					default:
